@@ -5,9 +5,13 @@ import vlib
 
 # streams (seed:index of harness/ssx_stream.hpp) found at design time to take the rarest generator path seen so far: an
 # instruction thrown away for lack of a destination register after its source search had already stalled
-STATIC_PICKS = ['1:757', '1:1148', '1:1657', '1:2391']
+STATIC_PICKS = ['1:757', '1:1148', '1:1657', '1:2391',
+                # generation ends on a macro-op committed beyond cycle 170 (port map rows 171-173) / between the two macro-ops of an IMUL_RCP
+                '1:3692', '1:7140', '1:8703', '1:1358', '1:2930', '1:4709',
+                # style-10 streams: runs in which every 32-bit word is zero or a power of two, 2^31 the most frequent (the divisor redraw of IMUL_RCP)
+                '1:100000', '1:100001', '1:100002', '1:100003', '1:100004', '1:100005']
 # stream whose eight programs contain 672 IMUL_RCP instructions (real keys: about 240): randomx_init_cache is run on it
-INIT_PICKS = ['1:2456']
+INIT_PICKS = ['1:2456', '1:100000']   # the second: a style-10 stream (every no-op divisor word is met by the redraw, 2^31 included)
 
 
 def record(ck, wd, keys, tag='ss'):
@@ -62,7 +66,7 @@ def scripted(ck, wd, tag='c09x', lite=False):
     try:
         fx = vlib.build_harness('ss_find', nolib=True)
         rc, fo = vlib.sh([fx, '--seed', str(ck.seed), '--first', '1000', '--streams', str(pool)], timeout=1500, check=False)
-        want = {'dstAfterSrcStall': 1, 'maxConsec': 3, 'maxStall': 4, 'srcThrow': 1, 'small': 1, 'aborts': 1, 'unmapped': 1, 'full': 1}
+        want = {'dstAfterSrcStall': 1, 'maxConsec': 3, 'maxStall': 4, 'srcThrow': 1, 'small': 1, 'aborts': 1, 'unmapped': 1, 'full': 1, 'late': 1, 'halfRcp': 1}
         quota = 24 if ck.thorough else 3
         for ln in fo.splitlines():
             m = re.match(r'S (\d+:\d+) (.*)', ln)
